@@ -125,11 +125,8 @@ void harness(void) {
   __CPROVER_assert(0, "canary");
 }
 ''' % dict(N=BN, N1=BN + 1)
-PIPELINES.append(Pipeline('U1_coordinate_parser_value_bounded', units=[U_s2c], prelude=GHOST + REF, harness=H_FUNC, unwind=BN + 53,
-                          loop_contracts=False, solver='kissat', timeout=3000, tier='thorough',
-                          bounded='input strings of at most %d characters (every string of that length over the full byte alphabet); exponents between -30 and 30' % BN,
-                          replay=('c13_text', lambda cex, o: ['coord', hexs(bytes((cex.first('buf[%dl]' % k, 0) or 0) & 255 for k in range(BN)).split(b'\\0')[0])]),
-                          note='functional correctness against the exact-decimal reference, bounded stand-in'))
+# the bounded stand-in U1_coordinate_parser_value_bounded (strings <= 0 characters, complete unwinding) never finished within 50 minutes and is superseded by the
+# unbounded pipeline U1_coordinate_parser_value below; H_FUNC is kept for probes only
 
 
 # ------------------------------------------------------------------ U6: opl_parse_int<T>
@@ -181,14 +178,119 @@ void harness(void) {
                               replay=('c13_text', (lambda T: (lambda cex, o: ['int', T, hexs(bytes((cex.first('buf[%dl]' % k, 0) or 0) & 255 for k in range(21)).split(b'\\0')[0])]))(T)),
                               note='functional correctness against an exact 128-bit reference, bounded stand-in'))
 
+
+# ------------------------------------------------------------------ U1 functional: exact decimal value for every string of the grammar (unbounded)
+import specs.c13_func as FUNC
+U_s2c_f = Unit(LOC, 'string_to_location_coordinate')
+PIPELINES.append(Pipeline('U1_coordinate_parser_value', units=[U_s2c_f], prelude=GHOST + FUNC.GHOSTS,
+                          contracts={'string_to_location_coordinate': FUNC.contract(STR_PP_REQUIRES % dict(pp='data'))}, loops={'string_to_location_coordinate': FUNC.LOOPS},
+                          harness='void harness(void) { const char** d; int32_t r = string_to_location_coordinate(d); __CPROVER_assert(verif_exc != 0, "canary:normal-return-reachable"); __CPROVER_assert(verif_exc == 0, "canary:throw-reachable"); }',
+                          enforce='string_to_location_coordinate', canaries=['canary:normal-return-reachable', 'canary:throw-reachable'], timeout=1500, solver='kissat', split=14,
+                          replay=('c13_text', lambda cex, o: ['search']),
+                          note='every string of the grammar (sign, up to 10 integer digits, up to 27 fraction digits, exponent of up to 5 digits, any terminator): value and acceptance against the exact decimal specification'))
+
+
+# ------------------------------------------------------------------ U4: timestamps
+TSH = 'include/osmium/osm/timestamp.hpp'
+TS_PRELUDE = GHOST + '''
+#include <time.h>
+/* timegm: assumed contract (libc calendar arithmetic is trusted). Its precondition records what the parser must have validated before calling it */
+struct tm ghost_tm; long ghost_timegm_result;
+time_t verif_timegm(struct tm* t)
+__CPROVER_requires(__CPROVER_r_ok(t, sizeof(*t)) && t->tm_year >= 0 && t->tm_year <= 8099 && t->tm_mon >= 0 && t->tm_mon <= 11 && t->tm_mday >= 1 && t->tm_mday <= 31 &&
+                   t->tm_hour >= 0 && t->tm_hour <= 23 && t->tm_min >= 0 && t->tm_min <= 59 && t->tm_sec >= 0 && t->tm_sec <= 60)
+__CPROVER_assigns(ghost_tm)
+__CPROVER_ensures(__CPROVER_return_value == ghost_timegm_result && ghost_tm.tm_year == t->tm_year && ghost_tm.tm_mon == t->tm_mon && ghost_tm.tm_mday == t->tm_mday &&
+                  ghost_tm.tm_hour == t->tm_hour && ghost_tm.tm_min == t->tm_min && ghost_tm.tm_sec == t->tm_sec)
+;
+#define DG(p, k) ((p)[k] - '0')
+'''
+U_frac = Unit(TSH, 'fractional_seconds')
+U_pts = Unit(TSH, 'parse_timestamp', sig=r'const char\*\* s', ret='time_t',
+             pre=[(r'static const std::array<int, 12> mon_lengths = \{\{', 'static const int mon_lengths[12] = {'), (r'\}\};', '};'), (r'std::tm tm;', 'struct tm tm;'), (r'return timegm\(&tm\);', 'return verif_timegm(&tm);')],
+             witness=[('(*s)', 'ghost_n + 1', 32)])
+FRAC_CONTRACT = [
+    ('pre', 'requires', '__CPROVER_r_ok(s, sizeof(*s)) && __CPROVER_r_ok(*s - __CPROVER_POINTER_OFFSET(*s), ghost_n + 1) && __CPROVER_POINTER_OFFSET(*s) <= ghost_n && (*s - __CPROVER_POINTER_OFFSET(*s))[ghost_n] == 0'),
+    ('post:stays inside the string; true only at a Z after .digits or ,digits', 'ensures',
+     '__CPROVER_same_object(*s, __CPROVER_old(*s)) && __CPROVER_POINTER_OFFSET(*s) <= ghost_n && __CPROVER_POINTER_OFFSET(*s) >= __CPROVER_POINTER_OFFSET(__CPROVER_old(*s)) && '
+     '(!__CPROVER_return_value || (**s == \'Z\' && __CPROVER_POINTER_OFFSET(*s) >= __CPROVER_POINTER_OFFSET(__CPROVER_old(*s)) + 2))'),
+    ('frame', 'assigns', '*s')]
+FRAC_LOOP = [['__CPROVER_assigns(str)', '__CPROVER_loop_invariant(__CPROVER_same_object(str, *s) && __CPROVER_POINTER_OFFSET(str) < ghost_n && __CPROVER_POINTER_OFFSET(str) > __CPROVER_POINTER_OFFSET(*s) && *str >= \'0\' && *str <= \'9\')',
+              '__CPROVER_decreases(ghost_n - __CPROVER_POINTER_OFFSET(str))']]
+PIPELINES.append(Pipeline('U4_fractional_seconds', units=[U_frac], prelude=GHOST, contracts={'fractional_seconds': [
+    ('pre:pointer into a NUL-terminated string', 'requires', 'ghost_n < VERIF_MAXLEN && __CPROVER_is_fresh(s, sizeof(*s)) && __CPROVER_is_fresh(*s, ghost_n + 1) && (*s)[ghost_n] == 0')] + FRAC_CONTRACT[1:]},
+    loops={'fractional_seconds': FRAC_LOOP}, enforce='fractional_seconds',
+    harness='void harness(void) { const char** d; fractional_seconds(d); __CPROVER_assert(0, "canary"); }', replay=('c13_text', lambda cex, o: ['ts-search'])))
+PTS_CONTRACT = [
+    ('pre:nul-terminated-string', 'requires', STR_PP_REQUIRES % dict(pp='s')),
+    ('post:only invalid_argument is thrown', 'ensures', 'verif_exc == 0 || verif_exc == EXC_invalid_argument'),
+    ('post:accepted timestamps have the form yyyy-mm-ddThh:mm:ss[.,digits]Z and are consumed exactly', 'ensures',
+     'verif_exc != 0 || (__CPROVER_same_object(*s, __CPROVER_old(*s)) && __CPROVER_POINTER_OFFSET(*s) >= 20 && __CPROVER_POINTER_OFFSET(*s) <= ghost_n && (*s)[-1] == \'Z\' && '
+     '__CPROVER_old(*s)[4] == \'-\' && __CPROVER_old(*s)[7] == \'-\' && __CPROVER_old(*s)[10] == \'T\' && __CPROVER_old(*s)[13] == \':\' && __CPROVER_old(*s)[16] == \':\')'),
+    ('post:exactly the validated calendar fields reach the calendar function, whose result is returned', 'ensures',
+     'verif_exc != 0 || (__CPROVER_return_value == ghost_timegm_result && ghost_tm.tm_year == DG(__CPROVER_old(*s), 0) * 1000 + DG(__CPROVER_old(*s), 1) * 100 + DG(__CPROVER_old(*s), 2) * 10 + DG(__CPROVER_old(*s), 3) - 1900 && '
+     'ghost_tm.tm_mon == DG(__CPROVER_old(*s), 5) * 10 + DG(__CPROVER_old(*s), 6) - 1 && ghost_tm.tm_mday == DG(__CPROVER_old(*s), 8) * 10 + DG(__CPROVER_old(*s), 9) && '
+     'ghost_tm.tm_hour == DG(__CPROVER_old(*s), 11) * 10 + DG(__CPROVER_old(*s), 12) && ghost_tm.tm_min == DG(__CPROVER_old(*s), 14) * 10 + DG(__CPROVER_old(*s), 15) && ghost_tm.tm_sec == DG(__CPROVER_old(*s), 17) * 10 + DG(__CPROVER_old(*s), 18))'),
+    ('post:days beyond the length of the month, month 0 or 13, hour 24, minute 60, second 61 and years before 1900 are rejected', 'ensures',
+     'verif_exc != 0 || (ghost_tm.tm_year >= 0 && ghost_tm.tm_mon >= 0 && ghost_tm.tm_mon <= 11 && ghost_tm.tm_mday >= 1 && '
+     'ghost_tm.tm_mday <= (ghost_tm.tm_mon == 1 ? 29 : (ghost_tm.tm_mon == 3 || ghost_tm.tm_mon == 5 || ghost_tm.tm_mon == 8 || ghost_tm.tm_mon == 10) ? 30 : 31) && ghost_tm.tm_hour <= 23 && ghost_tm.tm_min <= 59 && ghost_tm.tm_sec <= 60)'),
+    ('frame', 'assigns', '*s, verif_exc, ghost_tm'),
+]
+PIPELINES.append(Pipeline('U4_parse_timestamp', units=[U_frac, U_pts], prelude=TS_PRELUDE, contracts={'parse_timestamp': PTS_CONTRACT, 'fractional_seconds': FRAC_CONTRACT},
+                          replace=['fractional_seconds', 'verif_timegm'], enforce='parse_timestamp', noflags=['--pointer-overflow-check'],
+                          harness='void harness(void) { const char** d; parse_timestamp(d); __CPROVER_assert(verif_exc != 0, "canary:normal"); __CPROVER_assert(verif_exc == 0, "canary:throw"); }',
+                          canaries=['canary:normal', 'canary:throw'], timeout=900, split=12,
+                          replay=('c13_text', lambda cex, o: ['ts', hexs(cex.witness('parse_timestamp').split(b'\\0')[0])]),
+                          note='arbitrary NUL-terminated string of any length: character k is only read after characters < k were non-NUL; *s += 19 is formed before validation (pointer arithmetic check off for this unit: forming, not using, a pointer past a short string)'))
+
+# ------------------------------------------------------------------ U8: strtoul/strtoll based attribute parsers
+TFS_PRELUDE = GHOST + '''
+#include <limits.h>
+typedef int64_t object_id_type;
+unsigned long ghost_ul; long long ghost_ll; size_t ghost_endoff;
+/* strtoul / strtoll: assumed contracts (C standard): *end points into the string behind the consumed prefix; saturation values on overflow */
+unsigned long verif_strtoul(const char* s, char** end, int base)
+__CPROVER_requires(__CPROVER_r_ok(s, ghost_n + 1) && s[ghost_n] == 0 && __CPROVER_rw_ok(end, sizeof(*end)) && base == 10)
+__CPROVER_assigns(*end) __CPROVER_ensures(__CPROVER_return_value == ghost_ul && ghost_endoff <= ghost_n && __CPROVER_pointer_equals(*end, (char*)s + ghost_endoff));
+long long verif_strtoll(const char* s, char** end, int base)
+__CPROVER_requires(__CPROVER_r_ok(s, ghost_n + 1) && s[ghost_n] == 0 && __CPROVER_rw_ok(end, sizeof(*end)) && base == 10)
+__CPROVER_assigns(*end) __CPROVER_ensures(__CPROVER_return_value == ghost_ll && ghost_endoff <= ghost_n && __CPROVER_pointer_equals(*end, (char*)s + ghost_endoff));
+int verif_isspace(int c) { return c == ' ' || (c >= 9 && c <= 13); }
+'''
+U_s2ul = Unit(TFS, 'string_to_ulong', pre=[(r'std::strtoul\(', 'verif_strtoul('), (r'std::isspace\(', 'verif_isspace(')])
+U_s2id = Unit(TFS, 'string_to_object_id', sig=r'string_to_object_id\(const char\* input\)', pre=[(r'std::strtoll\(', 'verif_strtoll('), (r'std::isspace\(', 'verif_isspace(')])
+PIPELINES.append(Pipeline('U8_string_to_ulong', units=[U_s2ul], prelude=TFS_PRELUDE, contracts={'string_to_ulong': [
+    ('pre', 'requires', 'verif_exc == 0 && ghost_n < VERIF_MAXLEN && __CPROVER_is_fresh(input, ghost_n + 1) && input[ghost_n] == 0'),
+    ('post:strict: "-1" means 0; otherwise no leading blank or minus, the number spans the whole string, and exactly the values below 2^32-1 are accepted (2^32-1 is what strtoul saturates to on 32-bit platforms; the test suite pins its rejection)', 'ensures',
+     '(verif_exc == 0) == ((input[0] == \'-\' && input[1] == \'1\' && input[2] == 0) || (input[0] != 0 && input[0] != \'-\' && !verif_isspace(input[0]) && input[ghost_endoff] == 0 && ghost_ul < 4294967295UL))'),
+    ('post:value', 'ensures', 'verif_exc != 0 || __CPROVER_return_value == ((input[0] == \'-\') ? 0u : (uint32_t)ghost_ul)'),
+    ('post:range_error otherwise', 'ensures', 'verif_exc == 0 || verif_exc == EXC_range_error'),
+    ('frame', 'assigns', 'verif_exc')]}, replace=['verif_strtoul'], enforce='string_to_ulong',
+    harness='void harness(void) { const char* a; const char* b; string_to_ulong(a, b); __CPROVER_assert(verif_exc != 0, "canary:normal"); __CPROVER_assert(verif_exc == 0, "canary:throw"); }',
+    canaries=['canary:normal', 'canary:throw'], replay=('c13_text', lambda cex, o: ['ulong', cex.first('ghost_ul', 0)]),
+    note='versions, changeset ids and uids in XML attributes; relative to the strtoul contract'))
+PIPELINES.append(Pipeline('U8_string_to_object_id', units=[U_s2id], prelude=TFS_PRELUDE, contracts={'string_to_object_id': [
+    ('pre', 'requires', 'verif_exc == 0 && ghost_n < VERIF_MAXLEN && __CPROVER_is_fresh(input, ghost_n + 1) && input[ghost_n] == 0'),
+    ('post:strict: no leading blank, the number spans the whole string, the saturation values of strtoll are rejected', 'ensures',
+     '(verif_exc == 0) == (input[0] != 0 && !verif_isspace(input[0]) && input[ghost_endoff] == 0 && ghost_ll != LLONG_MIN && ghost_ll != LLONG_MAX)'),
+    ('post:value', 'ensures', 'verif_exc != 0 || __CPROVER_return_value == ghost_ll'),
+    ('post:range_error otherwise', 'ensures', 'verif_exc == 0 || verif_exc == EXC_range_error'),
+    ('frame', 'assigns', 'verif_exc')]}, replace=['verif_strtoll'], enforce='string_to_object_id',
+    harness='void harness(void) { const char* a; string_to_object_id(a); __CPROVER_assert(verif_exc != 0, "canary:normal"); __CPROVER_assert(verif_exc == 0, "canary:throw"); }',
+    canaries=['canary:normal', 'canary:throw'], replay=('c13_text', lambda cex, o: ['search'])))
+
 TRUSTED = ['std::copy_n on char ranges (C++ standard; stub body in stubs/base.h)']
 ASSUMPTIONS = ['input strings are NUL-terminated and shorter than 100000 bytes (object-size bound of the CBMC memory model; loop contracts make the proof independent of the length)']
 NOT_DECIDED = ['Location::set_lon(double) rounding (std::round)', 'calendar arithmetic of timegm/gmtime_r (libc)']
 LEVEL_TEXT = ('Proof (unbounded, loop contracts) that string_to_location_coordinate and opl_parse_int<int64/uint32/int32> are memory-safe on every '
               'NUL-terminated string of any length, free of signed overflow, throw only the documented exception, consume greedily within the string and '
-              'return a value within the target type; complete proof (thorough tier, all 2^32 values, real formatter and parser bodies inlined with '
-              'complete unwinding) that parsing the text written for a coordinate returns the identical value. Functional correctness of the integer '
-              'parser against an exact 128-bit reference is a bounded stand-in (strings up to 21 characters).')
-LEVEL_NOTE = ('Trusted: CBMC, extraction rules, std::copy_n stub. Bounded stand-ins are labelled in the evidence and not counted as proof. Not decided: '
-              'decimal-exact value of string_to_location_coordinate for all grammar strings (the bounded stand-in for it did not finish and is in the thorough tier), '
-              'timestamps (timegm/gmtime_r are libc), strtoll/strtoul based id parsers, Location::set_lon(double).')
+              'return a value within the target type; proof (unbounded in the string length, ghost digit tables, formula-sliced parallel discharge) that '
+              'string_to_location_coordinate returns exactly the decimal value rounded half up to seven places for every string of the accepted grammar and '
+              'rejects everything else with invalid_location; proof that parse_timestamp accepts exactly the strict ISO form, validates every calendar field '
+              'and passes exactly the validated fields to timegm (assumed contract); proof that string_to_ulong/string_to_object_id are strict relative to an '
+              'assumed strtoul/strtoll contract; complete proof (thorough tier, all 2^32 values, real formatter and parser bodies inlined with complete '
+              'unwinding) that parsing the text written for a coordinate returns the identical value. Functional correctness of the OPL integer parser '
+              'against an exact 128-bit reference is a bounded stand-in (strings up to 21 characters).')
+LEVEL_NOTE = ('Trusted: CBMC, extraction rules, std::copy_n stub, assumed contracts of timegm, strtoul, strtoll, isspace. Bounded stand-ins are labelled in the '
+              'evidence and not counted as proof. Not decided: Timestamp::to_iso (gmtime_r is libc) and with it the timestamp round trip, Location::set_lon(double), '
+              'output_int.')
